@@ -128,6 +128,14 @@ pub const FRAGMENTS: &[&str] = &[
     // values whose printed form is empty: the REPL still prints a line for them
     "\"\"",
     "(quote ||)",
+    // the space character as the last token of a line; a continuation line that starts with blanks inside a string
+    "(list 1 #\\ ",
+    "   b\" 7)",
+    // a procedure entered over two lines whose fault (on its second line) shows when it is called
+    // from a later one-line submission
+    "(define (h a)",
+    "  (nosuch-procedure a))",
+    "(h 1)",
 ];
 
 #[derive(Debug, PartialEq, Clone)]
